@@ -1,7 +1,465 @@
 package main
 
-import "go/token"
+// Lock-discipline analysis for C20 (data-race freedom on the declared fields).
+//
+// For every function of the module's packages a forward must-hold lockset is computed over the SSA
+// control-flow graph (intersection at joins, fixpoint over loops). Every access to a field declared
+// `guarded T.f by T.m` must happen with the mutex m of the SAME base object in the lockset; for guarded
+// fields of map or slice type the operations on the loaded value (lookup, update, delete, range, len,
+// append, index) are accesses too. `immutable T.f` fields may only be stored to in a function on an object
+// it allocated itself. If every access to a location holds one common lock, no two conflicting accesses
+// are concurrent - for all schedules. Obligations are decided syntactically (no SMT).
 
-// lockAccess / lockAcquire implement the lock-discipline obligations of C20 (see lockset mode).
+import (
+	"fmt"
+	"go/token"
+	"go/types"
+	"sort"
+	"strings"
+
+	"golang.org/x/tools/go/ssa"
+)
+
 func (x *Exec) lockAccess(st *State, a *Addr, write bool, pos token.Pos) {}
 func (x *Exec) lockAcquire(st *State, key string, pos token.Pos)         {}
+
+type lockSet map[string]bool // key: base + "." + mutex field ; value: true = write lock (or plain mutex)
+
+func (a lockSet) clone() lockSet {
+	n := lockSet{}
+	for k, v := range a {
+		n[k] = v
+	}
+	return n
+}
+
+func intersect(a, b lockSet) lockSet {
+	n := lockSet{}
+	for k, v := range a {
+		if w, ok := b[k]; ok {
+			n[k] = v && w
+		}
+	}
+	return n
+}
+
+func equalSets(a, b lockSet) bool {
+	if len(a) != len(b) {
+		return false
+	}
+	for k, v := range a {
+		if w, ok := b[k]; !ok || w != v {
+			return false
+		}
+	}
+	return true
+}
+
+// baseKey canonicalises the SSA value a field address is based on.
+func baseKey(v ssa.Value) string {
+	switch t := v.(type) {
+	case *ssa.Parameter:
+		return "p:" + t.Name()
+	case *ssa.FreeVar:
+		return "fv:" + t.Name()
+	case *ssa.UnOp:
+		if t.Op == token.MUL {
+			switch c := t.X.(type) {
+			case *ssa.FreeVar:
+				return "p:" + c.Name() // *c of a captured cell: the captured variable
+			case *ssa.Alloc:
+				if c.Comment != "" {
+					return "p:" + c.Comment // address-taken copy of a parameter / local of that name
+				}
+			case *ssa.FieldAddr:
+				return baseKey(c.X) + "." + fieldName(c)
+			}
+		}
+	case *ssa.FieldAddr:
+		return baseKey(t.X) + "." + fieldName(t)
+	case *ssa.ChangeType:
+		return baseKey(t.X)
+	case *ssa.Global:
+		return "g:" + t.Name()
+	}
+	return "v:" + v.Name()
+}
+
+func fieldName(fa *ssa.FieldAddr) string {
+	return fa.X.Type().Underlying().(*types.Pointer).Elem().Underlying().(*types.Struct).Field(fa.Field).Name()
+}
+
+type guardInfo struct {
+	by    map[string]string // T.f -> mutex field name
+	immut map[string]bool
+	init  map[string][]string // T.f -> functions allowed to write (initonly)
+	none  map[string]bool     // noclaim
+	owner map[string][2]string // T.f -> (owner receiver type, mutex field): objects stored in a container guarded by the owner's mutex
+	calls map[string][2]string // callee key -> (receiver type of the calling method, mutex field)
+}
+
+func (w *World) guards() *guardInfo {
+	g := &guardInfo{by: map[string]string{}, immut: map[string]bool{}, init: map[string][]string{}, none: map[string]bool{}, owner: map[string][2]string{}, calls: map[string][2]string{}}
+	for _, gd := range w.cs.Guards {
+		for _, f := range gd.Fields {
+			switch gd.Kind {
+			case "guarded":
+				if gd.Owner {
+					i := strings.LastIndex(gd.By, ".")
+					g.owner[f] = [2]string{gd.By[:i], gd.By[i+1:]}
+				} else {
+					g.by[f] = gd.By[strings.LastIndex(gd.By, ".")+1:]
+				}
+			case "guardedcall":
+				i := strings.LastIndex(gd.By, ".")
+				g.calls[f] = [2]string{gd.By[:i], gd.By[i+1:]}
+			case "immutable":
+				g.immut[f] = true
+			case "initonly":
+				g.init[f] = gd.In
+			case "noclaim":
+				g.none[f] = true
+			}
+		}
+	}
+	return g
+}
+
+// locksetObligations analyses every function of the module packages.
+func (w *World) locksetObligations() []*Obligation {
+	g := w.guards()
+	var out []*Obligation
+	var keys []string
+	for k, fn := range w.funcs {
+		pk := fn.Pkg
+		if pk == nil && fn.Parent() != nil {
+			pk = fn.Parent().Pkg
+		}
+		if pk == nil || fn.Blocks == nil || fn.Synthetic != "" {
+			continue
+		}
+		p := pk.Pkg.Path()
+		if !strings.HasPrefix(p, modPath+"/") || strings.HasSuffix(p, "/mocks") || strings.HasSuffix(p, "/logging") {
+			continue
+		}
+		pos := w.prog.Fset.Position(fn.Pos())
+		if strings.HasSuffix(pos.Filename, "_test.go") {
+			continue
+		}
+		keys = append(keys, k)
+	}
+	sort.Strings(keys)
+	for _, k := range keys {
+		out = append(out, w.locksetFunc(w.funcs[k], g)...)
+	}
+	return out
+}
+
+func (w *World) locksetFunc(fn *ssa.Function, g *guardInfo) []*Obligation {
+	// entry lockset from `holds` annotations (functions documented to be called with a lock held)
+	entry := lockSet{}
+	if fc, ok := w.cs.Funcs[funcKey(fn)]; ok {
+		for _, h := range fc.Holds {
+			entry[h] = true
+		}
+	}
+	in := map[*ssa.BasicBlock]lockSet{}
+	var top lockSet // nil = not yet reached
+	_ = top
+	work := []*ssa.BasicBlock{fn.Blocks[0]}
+	in[fn.Blocks[0]] = entry
+	outSet := func(b *ssa.BasicBlock, s lockSet) lockSet {
+		cur := s.clone()
+		for _, ins := range b.Instrs {
+			applyLockEffect(ins, cur)
+		}
+		return cur
+	}
+	for len(work) > 0 {
+		b := work[0]
+		work = work[1:]
+		o := outSet(b, in[b])
+		for _, s := range b.Succs {
+			old, seen := in[s]
+			var n lockSet
+			if !seen {
+				n = o.clone()
+			} else {
+				n = intersect(old, o)
+			}
+			if !seen || !equalSets(old, n) {
+				in[s] = n
+				work = append(work, s)
+			}
+		}
+	}
+	// derived values: loaded from a guarded map/slice field
+	derived := map[ssa.Value][2]string{} // value -> (class T.f, lock key)
+	var obls []*Obligation
+	ord := map[string]int{}
+	fresh := map[ssa.Value]bool{}
+	for _, b := range fn.Blocks {
+		for _, ins := range b.Instrs {
+			if a, ok := ins.(*ssa.Alloc); ok {
+				fresh[a] = true
+			}
+		}
+	}
+	isFreshBase := func(v ssa.Value) bool {
+		for {
+			switch t := v.(type) {
+			case *ssa.Alloc:
+				return true
+			case *ssa.FieldAddr:
+				v = t.X
+				continue
+			}
+			return fresh[v]
+		}
+	}
+	report := func(ins ssa.Instruction, class, need string, held lockSet, what string, ok bool) {
+		name := fmt.Sprintf("%s#lock:%s[%d]", shortKey(funcKey(fn)), shortKey(class), ord[class])
+		ord[class]++
+		o := &Obligation{Name: name, Fn: funcKey(fn), Kind: "lock", Tags: []string{"C20"}, Goal: "true", Pos: posString(w, ins.Pos()),
+			Src: what + " of " + shortKey(class) + " requires " + need, Status: "trivial"}
+		if !ok {
+			var hs []string
+			for k := range held {
+				hs = append(hs, k)
+			}
+			sort.Strings(hs)
+			o.Status, o.Solver, o.Goal = "sat", "syntactic", "false"
+			o.Output = fmt.Sprintf("%s of %s at %s without %s (held: %v)", what, shortKey(class), o.Pos, need, hs)
+		}
+		obls = append(obls, o)
+	}
+	recvName, recvType := "", ""
+	if fn.Signature.Recv() != nil && len(fn.Params) > 0 {
+		recvName, recvType = fn.Params[0].Name(), namedKey(fn.Params[0].Type())
+	}
+	ownerNeed := func(fa *ssa.FieldAddr) (string, string, bool) {
+		cls := fieldClass(fa.X.Type().Underlying().(*types.Pointer).Elem(), fa.Field)
+		ow, ok := g.owner[cls]
+		if !ok || recvType != ow[0] || isFreshBase(fa.X) {
+			return "", "", false
+		}
+		return cls, "p:" + recvName + "." + ow[1], true
+	}
+	for _, b := range fn.Blocks {
+		cur, reached := in[b]
+		if !reached {
+			continue
+		}
+		cur = cur.clone()
+		for _, ins := range b.Instrs {
+			// library calls that must be serialised by a mutex of the receiver
+			if ci, ok := ins.(ssa.CallInstruction); ok {
+				if callee := ci.Common().StaticCallee(); callee != nil {
+					if gc, ok := g.calls[callee.String()]; ok && recvType == gc[0] {
+						need := "p:" + recvName + "." + gc[1]
+						v, held := cur[need]
+						if _, isDefer := ins.(*ssa.Defer); !isDefer {
+							report(ins, "call "+callee.String(), need, cur, "call", held && v)
+						}
+					}
+				}
+			}
+			// objects owned by a guarded container of the receiver
+			switch t := ins.(type) {
+			case *ssa.UnOp:
+				if fa, ok := t.X.(*ssa.FieldAddr); ok && t.Op == token.MUL {
+					if cls, need, ok := ownerNeed(fa); ok {
+						_, held := cur[need]
+						report(ins, cls, need, cur, "read (object owned by the receiver's guarded container)", held)
+					}
+				}
+			case *ssa.Store:
+				if fa, ok := t.Addr.(*ssa.FieldAddr); ok {
+					if cls, need, ok := ownerNeed(fa); ok {
+						v, held := cur[need]
+						report(ins, cls, need, cur, "write (object owned by the receiver's guarded container)", held && v)
+					}
+				}
+			}
+			// accesses
+			switch t := ins.(type) {
+			case *ssa.UnOp:
+				if t.Op == token.MUL {
+					if fa, ok := t.X.(*ssa.FieldAddr); ok {
+						cls := fieldClass(fa.X.Type().Underlying().(*types.Pointer).Elem(), fa.Field)
+						if mux, ok := g.by[cls]; ok && !isFreshBase(fa.X) {
+							need := baseKey(fa.X) + "." + mux
+							_, held := cur[need]
+							switch fa.Type().Underlying().(*types.Pointer).Elem().Underlying().(type) {
+							case *types.Map, *types.Slice:
+								// the load of the header is an access only if the field is ever reassigned; track the value
+								derived[t] = [2]string{cls, need}
+								if w.fieldReassigned(cls) {
+									report(ins, cls, need, cur, "read", held)
+								}
+							default:
+								report(ins, cls, need, cur, "read", held)
+							}
+						}
+					}
+				}
+			case *ssa.Store:
+				if fa, ok := t.Addr.(*ssa.FieldAddr); ok {
+					cls := fieldClass(fa.X.Type().Underlying().(*types.Pointer).Elem(), fa.Field)
+					if mux, ok := g.by[cls]; ok && !isFreshBase(fa.X) {
+						need := baseKey(fa.X) + "." + mux
+						v, held := cur[need]
+						report(ins, cls, need, cur, "write", held && v)
+					}
+					if g.immut[cls] && !isFreshBase(fa.X) {
+						report(ins, cls, "no store outside the constructing function", cur, "write to immutable field", false)
+					}
+					if fns, ok := g.init[cls]; ok && !isFreshBase(fa.X) {
+						allowed := false
+						for _, f := range fns {
+							if strings.HasSuffix(shortKey(funcKey(fn)), f) {
+								allowed = true
+							}
+						}
+						report(ins, cls, "store only in "+strings.Join(fns, ", "), cur, "write to init-only field", allowed)
+					}
+				}
+				if ia, ok := t.Addr.(*ssa.IndexAddr); ok {
+					if d, ok := derived[ia.X]; ok {
+						v, held := cur[d[1]]
+						report(ins, d[0], d[1], cur, "element write", held && v)
+					}
+				}
+			case *ssa.Phi:
+				for _, e := range t.Edges {
+					if d, ok := derived[e]; ok {
+						derived[t] = d
+					}
+				}
+			case *ssa.ChangeType:
+				if d, ok := derived[t.X]; ok {
+					derived[t] = d
+				}
+			case *ssa.Lookup:
+				if d, ok := derived[t.X]; ok {
+					_, held := cur[d[1]]
+					report(ins, d[0], d[1], cur, "map read", held)
+				}
+			case *ssa.MapUpdate:
+				if d, ok := derived[t.Map]; ok {
+					v, held := cur[d[1]]
+					report(ins, d[0], d[1], cur, "map write", held && v)
+				}
+			case *ssa.Range:
+				if d, ok := derived[t.X]; ok {
+					_, held := cur[d[1]]
+					report(ins, d[0], d[1], cur, "map iteration", held)
+					derived[t] = d
+				}
+			case *ssa.Next:
+				if d, ok := derived[t.Iter]; ok {
+					_, held := cur[d[1]]
+					report(ins, d[0], d[1], cur, "map iteration step", held)
+				}
+			case *ssa.IndexAddr:
+				if d, ok := derived[t.X]; ok {
+					_, held := cur[d[1]]
+					report(ins, d[0], d[1], cur, "element access", held)
+				}
+			case *ssa.Call:
+				if bi, ok := t.Call.Value.(*ssa.Builtin); ok {
+					for i, a := range t.Call.Args {
+						if d, ok := derived[a]; ok {
+							v, held := cur[d[1]]
+							switch bi.Name() {
+							case "len", "cap":
+								report(ins, d[0], d[1], cur, bi.Name(), held)
+							case "delete":
+								if i == 0 {
+									report(ins, d[0], d[1], cur, "map delete", held && v)
+								}
+							case "append":
+								if i == 0 {
+									report(ins, d[0], d[1], cur, "append", held)
+								}
+							}
+						}
+					}
+				}
+			}
+			applyLockEffect(ins, cur)
+		}
+	}
+	return obls
+}
+
+func posString(w *World, p token.Pos) string {
+	if !p.IsValid() {
+		return ""
+	}
+	ps := w.prog.Fset.Position(p)
+	f := ps.Filename
+	if strings.HasPrefix(f, w.repo) {
+		f = strings.TrimPrefix(f[len(w.repo):], "/")
+	}
+	return fmt.Sprintf("%s:%d", f, ps.Line)
+}
+
+// fieldReassigned reports whether any function of the module stores to the field outside a constructor.
+func (w *World) fieldReassigned(cls string) bool {
+	if w.reassigned == nil {
+		w.reassigned = map[string]bool{}
+		for _, fn := range w.funcs {
+			if fn.Blocks == nil {
+				continue
+			}
+			for _, b := range fn.Blocks {
+				for _, ins := range b.Instrs {
+					st, ok := ins.(*ssa.Store)
+					if !ok {
+						continue
+					}
+					fa, ok := st.Addr.(*ssa.FieldAddr)
+					if !ok {
+						continue
+					}
+					if _, isAlloc := fa.X.(*ssa.Alloc); isAlloc {
+						continue
+					}
+					pt, ok := fa.X.Type().Underlying().(*types.Pointer)
+					if !ok {
+						continue
+					}
+					if _, ok := pt.Elem().Underlying().(*types.Struct); ok {
+						w.reassigned[fieldClass(pt.Elem(), fa.Field)] = true
+					}
+				}
+			}
+		}
+	}
+	return w.reassigned[cls]
+}
+
+func applyLockEffect(ins ssa.Instruction, cur lockSet) {
+	c, ok := ins.(*ssa.Call)
+	if !ok {
+		return
+	}
+	callee := c.Call.StaticCallee()
+	if callee == nil || len(c.Call.Args) == 0 {
+		return
+	}
+	fa, ok := c.Call.Args[0].(*ssa.FieldAddr)
+	if !ok {
+		return
+	}
+	key := baseKey(fa.X) + "." + fieldName(fa)
+	switch callee.String() {
+	case "(*sync.Mutex).Lock", "(*sync.RWMutex).Lock":
+		cur[key] = true
+	case "(*sync.RWMutex).RLock":
+		cur[key] = false
+	case "(*sync.Mutex).Unlock", "(*sync.RWMutex).Unlock", "(*sync.RWMutex).RUnlock":
+		delete(cur, key)
+	}
+}
